@@ -22,12 +22,12 @@ PROP = {'gen_tables': ['BwsFacts'], 'race': True,
                  'sequential theorems (stream_inv, short_count_has_error, error_is_sticky)'],
  'technique': 'Lean 4: executable model of bufio.Writer (from Go\'s source: loop, large-write path, short writes, sticky error) + '
               'BufferedWriteSyncer over a scripted sink, invariants by induction over unbounded histories; interleaving machine of clients, flush '
-              'goroutine, both mutexes and the stop/done channels with an inductive invariant, progress and a termination measure; tie: '
+              'goroutine, the mutex and the stop/done/flushed channels with an inductive invariant, progress and a termination measure; tie: '
               'extracted synchronisation skeleton (Gen/BwsFacts) + differential runs against the real type with a harness Clock, concurrent '
               'programs under -race, kill -9 of a writing subprocess',
  'level_text': 'Stream invariant, bounded buffering, sticky-error and short-count rules are proved for every scripted sink, size and history; '
                'whole-write alignment, the flush clauses and the crash prefix for every reliable sink; mutual exclusion, deadlock freedom, '
-               'completion of every call, loop termination after Stop and flush-before-return of every Stop for every number of goroutines and '
+               'completion of every call, and for every returning Stop: loop ended and shutdown flush completed, for every number of goroutines and '
                'every interleaving of the thread machine, with machine-checked witnesses that the issue-1428 and F11 shapes of Stop violate them.',
  'level_note': 'The thread machine abstracts the buffer to counters and is tied to the source by the extracted skeleton, not by a refinement '
                'proof; schedules of the real code are sampled (-race, stress), not enumerated. Kernel write atomicity under SIGKILL is assumed. '
